@@ -53,6 +53,7 @@ def run(ctx) -> None:
                    message=f"window({name}=...): " + "; ".join(b.problems))
     ctx.section("outputs", outputs)
     ctx.section("keys", gr.key_columns, ctx, w, "c.key-columns")
+    ctx.section("exit", gr.single_exit, ctx, w, "c.key-columns")
     ctx.section("aggregators", gr.aggregator_table, ctx, w, "d.same-aggregators")
 
     def sib():
